@@ -1,6 +1,6 @@
 (* C02 -- no request, however malformed, crashes the service or disturbs other requests.
    Only property theorems here, each closed by `exact <lemma>`; proofs are in Proofs*.v, the model in Defs.v. *)
-From CppcmsV Require Import Base.Tac Base.CSem C02.Defs C02.Proofs C02.Proofs2 C02.Proofs3 C02.Proofs4 C02.Link gen.Gen_c02proto.
+From CppcmsV Require Import Base.Tac Base.CSem C02.Defs C02.Proofs C02.Proofs2 C02.Proofs3 C02.Proofs4 C02.Proofs5 C02.Link gen.Gen_c02proto.
 Local Open Scope Z_scope.
 
 (* 1. declared length arithmetic: atoll is a saturating signed 64-bit value; a negative declared length is rejected
@@ -45,13 +45,43 @@ Print Assumptions http_header_resize_in_bounds.
 Example http_header_resize_nonvacuous : pst (prun parser0 [88;13;10]%N) = PSpaceOr.
 Proof. reflexivity. Qed.
 
-(* 3. the faithful model REFUTES index safety on two paths of the current code (replayed on the real service, see docs/C02.md) *)
-Theorem scgi_unterminated_header_block_refuted : exists s, fst (scgi_run s) = [IUnsafe].
-Proof. exists scgi_witness. exact scgi_unterminated_unsafe. Qed.
-Print Assumptions scgi_unterminated_header_block_refuted.
-Theorem fcgi_empty_get_values_refuted : exists s, fst (fcgi_run s) = [IUnsafe].
-Proof. exists fcgi_witness. exact fcgi_empty_get_values_unsafe. Qed.
-Print Assumptions fcgi_empty_get_values_refuted.
+(* 3. model-level memory safety of the SCGI and FastCGI readers holds unconditionally (code as repaired by /repo commits
+      236058f, d9475fc, 48f6979): for EVERY byte string no modelled buffer read (every one goes through the bounds-checked
+      rd; front() of a vector is the read of index 0) leaves its buffer, over the whole connection.  The two input
+      classes that used to refute this are now decided the safe way, in general and on the old witnesses:
+      a SCGI header block of positive declared length whose last byte is not NUL is a protocol violation (closed, no
+      application callback); a FastCGI GET_VALUES record without content is answered by an empty GET_VALUES_RESULT and
+      the connection goes on with the next record. *)
+Theorem scgi_connection_in_bounds : forall s, ~ In IUnsafe (fst (scgi_run s)).
+Proof. exact scgi_run_no_unsafe. Qed.
+Print Assumptions scgi_connection_in_bounds.
+Theorem fcgi_connection_in_bounds : forall s, bytes_ok s -> ~ In IUnsafe (fst (fcgi_run s)).
+Proof. exact fcgi_run_no_unsafe. Qed.
+Print Assumptions fcgi_connection_in_bounds.
+Theorem fcgi_connection_in_bounds_from_any_record : forall fuel s, bytes_ok s -> ~ In IUnsafe (fst (fcgi_conn fuel s)).
+Proof. exact fcgi_conn_no_unsafe. Qed.
+Print Assumptions fcgi_connection_in_bounds_from_any_record.
+Theorem scgi_unterminated_header_block_rejected : forall s,
+  0 < scgi_len s -> rd s (scgi_block_end s) <> Some 0%N -> scgi_run s = ([IEnd], c0).
+Proof. exact scgi_run_unterminated_rejected. Qed.
+Print Assumptions scgi_unterminated_header_block_rejected.
+Theorem fcgi_empty_get_values_answered : forall f i1 i0 x r,
+  fcgi_conn (S f) (1 :: 9 :: i1 :: i0 :: 0 :: 0 :: 0 :: x :: r)%N = (IGetValues [] :: fst (fcgi_conn f r), snd (fcgi_conn f r)).
+Proof. exact fcgi_empty_get_values_continues. Qed.
+Print Assumptions fcgi_empty_get_values_answered.
+(* regression: the witnesses of the former scgi_unterminated_header_block_refuted / fcgi_empty_get_values_refuted
+   ("40:" + 40 x A + "," and the record 01 09 00 00 00 00 00 00) now evaluate to the safe outcome; the empty
+   GET_VALUES in front of a complete request does not disturb that request *)
+Example repaired_witnesses_regression :
+  scgi_run scgi_witness = ([IEnd], c0) /\ fcgi_run fcgi_witness = ([IGetValues []; IEnd], c0) /\
+  0 < scgi_len scgi_witness /\ rd scgi_witness (scgi_block_end scgi_witness) = Some 65%N /\
+  fcgi_run (fcgi_witness ++ [1;1;0;1;0;8;0;0;0;1;0;0;0;0;0;0;1;4;0;1;0;19;0;0;11;6;83;67;82;73;80;84;95;78;65;77;69;47;97;115;121;110;99;1;4;0;1;0;0;0;0;1;5;0;1;0;0;0;0]%N)
+    = ([IGetValues []; IOk AppAsync], mkC 0 1 0 0 0 0 0) /\
+  (* a block that does end in NUL is still served: 22:SCRIPT_NAME\0/sync\0X\0Y\0, *)
+  scgi_run [50;50;58;83;67;82;73;80;84;95;78;65;77;69;0;47;115;121;110;99;0;88;0;89;0;44]%N = ([IOk AppSync], mkC 1 0 0 0 0 0 0) /\
+  (* and the same block with the final NUL replaced is rejected *)
+  scgi_run [50;50;58;83;67;82;73;80;84;95;78;65;77;69;0;47;115;121;110;99;0;88;0;89;90;44]%N = ([IEnd], c0).
+Proof. vm_compute. repeat split. Qed.
 
 (* 4. total readers: for every byte string (HTTP: every segmentation into reads) a connection run ends without fuel
       exhaustion; SCGI produces exactly one observation *)
@@ -95,10 +125,10 @@ Example at_most_once_nonvacuous :
 Proof. vm_compute. repeat split. Qed.
 
 (* 6. index arithmetic.  FastCGI read_len / parse_pairs (both overloads): with the `uint32_t(e - p) >= len` tests every
-      read and every name/value slice lies inside body_, for every body shorter than 2^32 bytes; a whole FastCGI
-      connection whose body_ already has storage never performs an unsafe read, for every stream of bytes.
-      SCGI: if the byte before the terminating comma is NUL, no strlen of the key/value scan leaves buffer_
-      (the converse case is theorem scgi_unterminated_header_block_refuted above). *)
+      read and every name/value slice lies inside body_, for every body shorter than 2^32 bytes; parse_pairs_all adds the
+      empty-body early return in front of &body_.front().
+      SCGI: if the byte before the terminating comma is NUL, no strlen of the key/value scan leaves buffer_, and the test
+      scgi_block_terminated (repair 236058f) lets the scan run only in that case or on an empty block. *)
 Theorem fcgi_read_len_in_bounds : forall body p e, 0 <= p <= e -> e <= zlen body ->
   match read_len body p e with LUnsafe => False | LBad => True | LOk v p1 => p < p1 <= e /\ 0 <= v end.
 Proof. exact read_len_safe. Qed.
@@ -107,17 +137,25 @@ Theorem fcgi_parse_pairs_in_bounds : forall fuel body p e acc,
   zlen body < 4294967296 -> 0 <= p <= e -> e <= zlen body -> parse_pairs fuel body p e acc <> PUnsafe.
 Proof. exact parse_pairs_safe. Qed.
 Print Assumptions fcgi_parse_pairs_in_bounds.
-Theorem fcgi_connection_in_bounds : forall fuel s, bytes_ok s -> ~ In IUnsafe (fst (fcgi_conn fuel s true)).
-Proof. exact fcgi_conn_no_unsafe. Qed.
-Print Assumptions fcgi_connection_in_bounds.
+Theorem fcgi_parse_pairs_all_in_bounds : forall body, zlen body < 4294967296 -> parse_pairs_all body <> PUnsafe.
+Proof. exact parse_pairs_all_safe. Qed.
+Print Assumptions fcgi_parse_pairs_all_in_bounds.
 Theorem scgi_scan_in_bounds_if_nul_terminated : forall fuel buf p back acc,
   0 <= p -> rd buf (back - 1) = Some 0%N -> scgi_env fuel buf p back acc <> None.
 Proof. exact scgi_env_safe. Qed.
 Print Assumptions scgi_scan_in_bounds_if_nul_terminated.
+Theorem scgi_scan_runs_only_on_terminated_block : forall buf sep size fuel acc,
+  0 <= sep -> sep + 2 <= size -> scgi_block_terminated buf sep size = Some true ->
+  scgi_env fuel buf (sep + 1) (size - 1) acc <> None.
+Proof. exact scgi_block_terminated_scan_safe. Qed.
+Print Assumptions scgi_scan_runs_only_on_terminated_block.
 Example index_nonvacuous :
   read_len [128;0;1;2;65]%N 0 5 = LOk 258 4 /\ read_len [128;0;1]%N 0 3 = LBad /\
   (exists acc, parse_pairs 9 [1;1;65;66;1;200;67]%N 0 7 [] = PFalse acc) /\
-  scgi_env 9 [65;0;66;0;44]%N 0 4 [] = Some [([65]%N, [66]%N)] /\ scgi_env 9 [65;0;66;67;44]%N 0 4 [] = None.
+  scgi_env 9 [65;0;66;0;44]%N 0 4 [] = Some [([65]%N, [66]%N)] /\ scgi_env 9 [65;0;66;67;44]%N 0 4 [] = None /\
+  scgi_block_terminated [58;65;0;66;0;44]%N 0 6 = Some true /\ scgi_block_terminated [58;65;0;66;67;44]%N 0 6 = Some false /\
+  scgi_block_terminated [58;44]%N 0 2 = Some true /\
+  parse_pairs_all [] = PTrue [] /\ parse_pairs_all [1;1;65;66]%N = PTrue [([65]%N, [66]%N)].
 Proof. vm_compute. repeat split. eexists. reflexivity. Qed.
 
 (* 7. tie to the source: the separator / token-character / ascii_to_lower leafs used by the request-line, header-name and
@@ -167,15 +205,80 @@ Example http_connection_nonvacuous :
   fst (http_run [[80;79;83;84;32;47;117;112;32;72;84;84;80;47;49;46;48;13;10;67;111;110;116;101;110;116;45;76;101;110;103;116;104;58;32;45;49;13;10;13;10]%N]) = [IStatus 400].
 Proof. vm_compute. reflexivity. Qed.
 
-(* 10. whole-connection index safety for the other two readers: the HTTP reader has no out-of-bounds path for any stream
-       and segmentation; a SCGI connection performs an unsafe read only if the last byte of its header block (index
-       scgi_block_end = position of ':' + declared length) is not NUL - exactly the class of finding 1 *)
+(* 10. whole-connection index safety of the HTTP reader: no out-of-bounds path for any stream and segmentation.
+       Together with group 3: no input on any of the three front-ends reaches an unsafe index of the model. *)
 Theorem http_connection_in_bounds : forall fuel s i, ~ In IUnsafe (fst (http_conn fuel s i)).
 Proof. exact http_conn_no_unsafe. Qed.
 Print Assumptions http_connection_in_bounds.
-Theorem scgi_connection_unsafe_only_if_unterminated : forall s,
-  In IUnsafe (fst (scgi_run s)) -> rd s (scgi_block_end s) <> Some 0%N.
-Proof. exact scgi_run_unsafe_only_if_unterminated. Qed.
-Print Assumptions scgi_connection_unsafe_only_if_unterminated.
-Example scgi_connection_nonvacuous : In IUnsafe (fst (scgi_run scgi_witness)) /\ rd scgi_witness (scgi_block_end scgi_witness) = Some 65%N.
-Proof. vm_compute. split; [left; reflexivity|reflexivity]. Qed.
+Theorem no_input_reaches_unsafe_index : forall segments s,
+  ~ In IUnsafe (fst (http_run segments)) /\ ~ In IUnsafe (fst (scgi_run s)) /\ (bytes_ok s -> ~ In IUnsafe (fst (fcgi_run s))).
+Proof. exact all_readers_no_unsafe. Qed.
+Print Assumptions no_input_reaches_unsafe_index.
+
+(* 11. FastCGI record level (unknown roles or record types, other protocol versions - named in the property text): whatever
+       follows on the stream, a record of another version closes the connection without reply; a record whose type is neither
+       GET_VALUES nor BEGIN_REQUEST is skipped and changes nothing; a BEGIN_REQUEST with a role other than RESPONDER is
+       answered by END_REQUEST(unknown role) and the connection goes on with the next record, no handler involved; a
+       BEGIN_REQUEST whose body is not 8 bytes is a protocol violation *)
+Theorem fcgi_unknown_version_closes_connection : forall f s h content rest,
+  read_record s = Some (h, content, rest) -> f_version h <> 1 -> fcgi_conn (S f) s = ([IEnd], c0).
+Proof. exact fcgi_other_version_closed. Qed.
+Print Assumptions fcgi_unknown_version_closes_connection.
+Theorem fcgi_unknown_record_type_is_skipped : forall f s h content rest,
+  read_record s = Some (h, content, rest) -> f_version h = 1 -> f_type h <> 9 -> f_type h <> 1 ->
+  fcgi_conn (S f) s = fcgi_conn f rest.
+Proof. exact fcgi_unknown_type_skipped. Qed.
+Print Assumptions fcgi_unknown_record_type_is_skipped.
+Theorem fcgi_unknown_role_is_answered_and_connection_continues : forall f s h content rest,
+  read_record s = Some (h, content, rest) -> f_version h = 1 -> f_type h = 1 -> length content = 8%nat ->
+  zb (nth 0 content 0%N) * 256 + zb (nth 1 content 0%N) <> 1 ->
+  fcgi_conn (S f) s = (IUnknownRole :: fst (fcgi_conn f rest), snd (fcgi_conn f rest)).
+Proof. exact fcgi_unknown_role_answered. Qed.
+Print Assumptions fcgi_unknown_role_is_answered_and_connection_continues.
+Theorem fcgi_begin_request_wrong_size_closes_connection : forall f s h content rest,
+  read_record s = Some (h, content, rest) -> f_version h = 1 -> f_type h = 1 -> length content <> 8%nat ->
+  fcgi_conn (S f) s = ([IEnd], c0).
+Proof. exact fcgi_begin_request_bad_size_closed. Qed.
+Print Assumptions fcgi_begin_request_wrong_size_closes_connection.
+Example fcgi_record_level_nonvacuous :
+  (* type 11 record with 3 content + 5 padding bytes, then BEGIN_REQUEST(role 2), then a version-2 record *)
+  read_record [1;11;0;0;0;3;5;0;120;121;122;0;0;0;0;0;1;1;0;1;0;8;0;0;0;2;0;0;0;0;0;0;2;1;0;1;0;0;0;0]%N
+    = Some (mkF 1 11 0 3 5, [120;121;122]%N, [1;1;0;1;0;8;0;0;0;2;0;0;0;0;0;0;2;1;0;1;0;0;0;0]%N) /\
+  fcgi_run [1;11;0;0;0;3;5;0;120;121;122;0;0;0;0;0;1;1;0;1;0;8;0;0;0;2;0;0;0;0;0;0;2;1;0;1;0;0;0;0]%N = ([IUnknownRole; IEnd], c0) /\
+  fcgi_run [1;1;0;1;0;7;0;0;0;1;0;0;0;0;0]%N = ([IEnd], c0).
+Proof. vm_compute. repeat split. Qed.
+
+(* 12. the decidable input class on which checks/C02.py demands the repaired SCGI behaviour of the implementation
+       (complete accepted netstring ending in a comma whose non-empty header block does not end in NUL; the Python and the
+       extracted Coq definition are compared on every generated SCGI case) is rejected by the model *)
+Theorem scgi_oracle_class_is_rejected : forall s, scgi_unterminated_class s = true -> scgi_run s = ([IEnd], c0).
+Proof. exact scgi_unterminated_class_rejected. Qed.
+Print Assumptions scgi_oracle_class_is_rejected.
+Example scgi_oracle_class_nonvacuous :
+  scgi_unterminated_class scgi_witness = true /\
+  scgi_unterminated_class [50;50;58;83;67;82;73;80;84;95;78;65;77;69;0;47;115;121;110;99;0;88;0;89;0;44]%N = false /\
+  scgi_unterminated_class [50;50;58;83;67;82;73;80;84;95;78;65;77;69;0;47;115;121;110;99;0;88;0;89;90;44]%N = true.
+Proof. vm_compute. repeat split. Qed.
+
+(* 13. all segmentations (HTTP; the SCGI and FastCGI readers of the model take the byte stream itself): for a stream of at
+       most 16384 bytes the observations and the callback counters of an HTTP connection do not depend on how the bytes are
+       delivered - the connection equals http_pure, a reader without any notion of reads; above 16384 bytes the
+       segmentation does matter (the limit is tested once per read, theorem group 8), as the example shows *)
+Theorem http_outcome_independent_of_segmentation : forall segs1 segs2,
+  concat segs1 = concat segs2 -> Z.of_nat (length (concat segs1)) <= 16384 -> http_run segs1 = http_run segs2.
+Proof. exact http_run_segmentation_independent. Qed.
+Print Assumptions http_outcome_independent_of_segmentation.
+Theorem http_connection_is_segmentation_free_reader : forall segments,
+  Z.of_nat (length (concat segments)) <= 16384 ->
+  http_run segments = http_pure (S (length (concat segments))) (concat segments).
+Proof. exact http_run_pure. Qed.
+Print Assumptions http_connection_is_segmentation_free_reader.
+Example segmentation_nonvacuous :
+  let rq := [71;69;84;32;47;115;121;110;99;32;72;84;84;80;47;49;46;48;13;10;13;10]%N in
+  http_run [rq] = ([IOk AppSync], mkC 1 0 0 0 0 0 0) /\
+  http_run [firstn 3 rq; firstn 16 (skipn 3 rq); skipn 19 rq] = ([IOk AppSync], mkC 1 0 0 0 0 0 0) /\
+  (* a header block of 16427 bytes: served when it arrives as a read of 16384 bytes followed by one read of the rest, refused
+     when a further read boundary falls after byte 16385, because the limit is tested after each read *)
+  let big := ([71;69;84;32;47;115;121;110;99;32;72;84;84;80;47;49;46;48;13;10;88;58;32]%N ++ repeat 97%N 16400 ++ [13;10;13;10]%N) in
+  fst (http_run [big]) = [IOk AppSync] /\ fst (http_run [firstn 16385 big; firstn 10 (skipn 16385 big); skipn 16395 big]) = [IEnd].
+Proof. vm_compute. repeat split. Qed.
